@@ -366,7 +366,7 @@ impl<'a> MachineAfterRegWrite<'a> {
             if machine.last_bus_read == 0x00 {
                 warn!("Read 0x00 instruction! Error halting");
                 machine.state = State::ErrorStopped;
-            } else if machine.last_bus_read == 0x01 {
+            } else if machine.last_bus_read == 0x01 && machine.state == State::Running {
                 warn!("Read 0x01 instruction. Halting.");
                 machine.state = State::Stopped;
             } else if machine.last_bus_read == 0b0010_1100 {
